@@ -1,7 +1,7 @@
 (* Properties_C15.v -- C15: write-ahead-log framing is exact, standard and torn-tail tolerant.
    Only theorem statements, each closed by [exact] of a lemma proved in
    LogFormatProofs.v / LogFormatClosed.v / Crc32cProofs.v, with Print Assumptions. *)
-From LCDB Require Import Base Crc32c LogFormat BaseProofs Crc32cProofs LogFormatClosed.
+From LCDB Require Import Base Crc32c LogFormat BaseProofs Crc32cProofs LogFormatClosed CrcBurst.
 Local Open Scope N_scope.
 
 (* The model is pinned to the LevelDB log format constants. *)
@@ -76,3 +76,92 @@ Theorem C15_writer_fuel : forall fuel off data, off <= BLOCK ->
   (add_record_fuel data <= fuel)%nat -> add_record_loop fuel off true data = add_record off data.
 Proof. exact add_record_fuel_ok. Qed.
 Print Assumptions C15_writer_fuel.
+
+(* ---- Deterministic core of CRC detection (CrcBurst.v), messages of ANY length ---- *)
+
+(* Any alteration of a slice of the checksummed bytes whose xor pattern [e] has all its set
+   bits within 32 consecutive bit positions (bit j of byte i = position 8*i+j, the order in
+   which the CRC consumes them; [burst_le_32]) changes the CRC: in particular every
+   single-bit flip and every overwrite of 1..4 consecutive bytes. *)
+Theorem C15_crc_detects_burst : forall pre d e post,
+  length d = length e -> wf_bytes e = true -> all_zero e = false -> burst_le_32 e ->
+  crc_value (pre ++ xor_bytes d e ++ post) <> crc_value (pre ++ d ++ post).
+Proof. exact crc_detects_burst. Qed.
+Print Assumptions C15_crc_detects_burst.
+
+Theorem C15_crc_detects_overwrite_1_to_4_bytes : forall pre d d' post,
+  length d' = length d -> (length d <= 4)%nat ->
+  wf_bytes d = true -> wf_bytes d' = true -> d' <> d ->
+  crc_value (pre ++ d' ++ post) <> crc_value (pre ++ d ++ post).
+Proof. exact crc_detects_overwrite. Qed.
+Print Assumptions C15_crc_detects_overwrite_1_to_4_bytes.
+
+Theorem C15_crc_detects_bit_flip : forall pre b j post, j < 8 ->
+  crc_value (pre ++ N.lxor b (2 ^ j) :: post) <> crc_value (pre ++ b :: post).
+Proof. exact crc_detects_bit_flip. Qed.
+Print Assumptions C15_crc_detects_bit_flip.
+
+(* ... and 32 is optimal: a 33-bit pattern (the generator polynomial) is never detected. *)
+Theorem C15_crc_burst_33_undetected : forall pre d post, length d = 5%nat ->
+  crc_value (pre ++ xor_bytes d [241; 118; 236; 5; 1] ++ post) = crc_value (pre ++ d ++ post).
+Proof. exact crc_burst_33_undetected. Qed.
+Print Assumptions C15_crc_burst_33_undetected.
+
+(* A written physical record whose type byte / payload is altered by one such burst (lengths
+   unchanged) is answered by the reader with a bad-record event, never with a record,
+   whatever follows it in the block. *)
+Theorem C15_single_alteration_detected :
+  forall f eof ty payload ty' payload' c0 c1 c2 c3 a b tail,
+  wf_bytes (ty :: payload) = true -> wf_bytes (ty' :: payload') = true ->
+  length payload' = length payload ->
+  ty' :: payload' <> ty :: payload ->
+  burst_le_32 (xor_bytes (ty' :: payload') (ty :: payload)) ->
+  nlen payload < 65536 ->
+  phys_record ty payload = c0 :: c1 :: c2 :: c3 :: a :: b :: ty :: payload ->
+  exists r,
+    parse_block (S f) true eof (c0 :: c1 :: c2 :: c3 :: a :: b :: ty' :: payload' ++ tail)
+    = PBad r :: (if eof then [PEof] else []).
+Proof. exact log_reader_rejects_altered_record. Qed.
+Print Assumptions C15_single_alteration_detected.
+
+(* The reader's comparison itself ([log_crc_ok] = the test made by [parse_block]) fails when
+   one byte of [ty :: payload] is overwritten, when one bit is flipped, and when only the
+   stored checksum bytes are altered. *)
+Theorem C15_byte_overwrite_detected :
+  forall ty payload pre b post b' ty' payload' c0 c1 c2 c3,
+  wf_bytes (ty :: payload) = true ->
+  ty :: payload = pre ++ b :: post -> ty' :: payload' = pre ++ b' :: post ->
+  b' < 256 -> b' <> b ->
+  le32 (crc_mask (crc_extend (crc_value [ty]) payload)) = [c0; c1; c2; c3] ->
+  log_crc_ok c0 c1 c2 c3 ty' payload' = false.
+Proof. exact log_record_byte_overwrite_detected. Qed.
+Print Assumptions C15_byte_overwrite_detected.
+
+Theorem C15_bit_flip_detected :
+  forall ty payload pre b post j ty' payload' c0 c1 c2 c3,
+  wf_bytes (ty :: payload) = true ->
+  ty :: payload = pre ++ b :: post ->
+  ty' :: payload' = pre ++ N.lxor b (2 ^ j) :: post -> j < 8 ->
+  le32 (crc_mask (crc_extend (crc_value [ty]) payload)) = [c0; c1; c2; c3] ->
+  log_crc_ok c0 c1 c2 c3 ty' payload' = false.
+Proof. exact log_record_bit_flip_detected. Qed.
+Print Assumptions C15_bit_flip_detected.
+
+Theorem C15_crc_field_alteration_detected :
+  forall ty payload c0 c1 c2 c3 c0' c1' c2' c3',
+  wf_bytes (ty :: payload) = true ->
+  le32 (crc_mask (crc_extend (crc_value [ty]) payload)) = [c0; c1; c2; c3] ->
+  c0' < 256 -> c1' < 256 -> c2' < 256 -> c3' < 256 ->
+  [c0'; c1'; c2'; c3'] <> [c0; c1; c2; c3] ->
+  log_crc_ok c0' c1' c2' c3' ty payload = false.
+Proof. exact log_record_crc_field_alteration_detected. Qed.
+Print Assumptions C15_crc_field_alteration_detected.
+
+Theorem C15_crc_mismatch_means_bad_record : forall f eof c0 c1 c2 c3 a b ty payload tail,
+  a + 256 * b = nlen payload ->
+  log_crc_ok c0 c1 c2 c3 ty payload = false ->
+  exists r,
+    parse_block (S f) true eof (c0 :: c1 :: c2 :: c3 :: a :: b :: ty :: payload ++ tail)
+    = PBad r :: (if eof then [PEof] else []).
+Proof. exact parse_block_crc_mismatch. Qed.
+Print Assumptions C15_crc_mismatch_means_bad_record.
